@@ -845,6 +845,18 @@ func eqTerm(i *interpreter, t types.Type, x, y value) *smt.Term {
 		x = i.forceIface(i.curFrame(), x)
 		y = i.forceIface(i.curFrame(), y)
 	}
+	// an element of a slice's spare capacity that was never written is the host's nil: the zero interface value
+	if x == nil || y == nil {
+		if x == nil && y == nil {
+			return smt.True
+		}
+		if _, ok := y.(iface); ok && x == nil {
+			x = iface{}
+		}
+		if _, ok := x.(iface); ok && y == nil {
+			y = iface{}
+		}
+	}
 	switch x := x.(type) {
 	case *smt.Term:
 		return smt.Eq(x, toTerm(y))
